@@ -10,7 +10,7 @@ if [ "$1" = "-e" ]; then
   sed -i "$2" "$D/$3"; shift 3
   if diff -q "$D/$1" /dev/null >/dev/null 2>&1; then :; fi
 else
-  (cd "$D" && patch -p1 -s < "$1"); shift 1
+  P=$(readlink -f "$1"); (cd "$D" && patch -p1 -s < "$P"); shift 1
 fi
 [ "$1" = "--" ] && shift
 (cd /repo && git diff --no-index --stat . "$D" 2>/dev/null | tail -1) || true
